@@ -78,8 +78,11 @@ Definition oracle_ok (dim : nat) (t : Q) (o : gp_oracle) : bool :=
   && close (o_lr o) (o_logpdf o - o_logcdf o)
   && (if Qlt_bool (1 # 1000000000000) (o_cdf o) then close (o_ratio o * o_cdf o) (o_pdf o) else true)
   && (if Qlt_bool (o_z o) (- (1))
-      then Qle_bool ((- o_z o) * (1 - tol)) (o_ratio o)
-           && Qle_bool (o_ratio o) ((- o_z o + 1 / (- o_z o)) * (1 + tol))
+      then (* the binary64 difference logpdf - logcdf carries an absolute error of a few ulp of its
+              operands (cancellation: ~ eps z^2), which is a relative error of exp of it *)
+           let slack := tol + (Qabs (o_logpdf o) + Qabs (o_logcdf o)) * (4 # 4503599627370496) in
+           Qle_bool ((- o_z o) * (1 - slack)) (o_ratio o)
+           && Qle_bool (o_ratio o) ((- o_z o + 1 / (- o_z o)) * (1 + slack))
       else true)
   && (length (o_gmean o) =? dim) && (length (o_gvar o) =? dim).
 
